@@ -97,38 +97,66 @@ def r16b(ck, prog):
     K = prog.fn("kalign_run")
     if not prog.config.startswith("omp"):
         return
-    cfg = K.cfg
     cg = CallGraph(prog)
-    from ..lift import Lifted
-    L = Lifted(prog, cg)
-    found = L.find_call(K, "omp_set_num_threads")
-    if found and found[0][0] is not K:
-        raise AnalysisBroken("R16b: omp_set_num_threads moved into helper %s; dominance over the parallel regions is not decided across functions" % found[0][0].name)
-    sets = list(K.body.calls("omp_set_num_threads"))
-    where = site(prog, sets[0] if sets else K, "omp_set_num_threads")
-    ck.inst("R16b", where, "kalign_run sets the OpenMP thread count %d time(s)" % len(sets), prog.config)
-    if not sets:
-        ck.violation("R16b", "R16b/kalign_run/missing", where,
-                     "kalign_run never calls omp_set_num_threads: the thread count of an earlier call stays in force", prog.config)
-        return
-    for s in sets:
-        a = s.args[0].strip(casts=True)
-        if not (a.k == "DeclRefExpr" and a.d.get("dk") == "Parm"):
-            ck.violation("R16b", "R16b/kalign_run/argument", site(prog, s), "omp_set_num_threads(%s) does not use the call's own parameter" % a.text(), prog.config)
-        if [c for c, pol in guards(s) if "RUN" not in c.mac]:
-            ck.violation("R16b", "R16b/kalign_run/conditional", site(prog, s), "omp_set_num_threads is conditional", prog.config)
     # functions that (transitively) contain an omp parallel directive
     par = set()
     for F in prog.lib_functions():
         if any("omp" in n.d and n.d["omp"].startswith("parallel") for n in F.body.walk()):
             par.add(F.name)
-    spos = [cfg.position(s) for s in sets]
-    for c in K.body.calls():
-        if c.callee in cg.defined and set(cg.reachable({c.callee})) & par:
-            ck.inst("R16b", site(prog, c, c.callee), "%s opens parallel regions; the thread count is set before it" % c.callee, prog.config)
-            if cfg.reaches(None, cfg.position(c), avoid=spos):
-                ck.violation("R16b", "R16b/kalign_run/%s" % c.callee, site(prog, c),
-                             "%s (which opens a parallel region) can run before omp_set_num_threads" % c.callee, prog.config)
+
+    def opens(name):
+        return name in cg.defined and bool(set(cg.reachable({name})) & par)
+
+    def check(F, parm_ok, depth=0):
+        """F sets the thread count from a value for which parm_ok(arg node) holds, unconditionally, before anything in F that opens
+        a parallel region; returns the positions in F that count as 'the thread count is set here' (empty: F does not set it)"""
+        cfg = F.cfg
+        sets = []
+        for s_ in F.body.calls("omp_set_num_threads"):
+            a = s_.args[0].strip(casts=True)
+            if not (a.k == "DeclRefExpr" and a.d.get("dk") == "Parm" and parm_ok(F, a)):
+                ck.violation("R16b", "R16b/%s/argument" % F.name, site(prog, s_), "omp_set_num_threads(%s) does not use the call's own parameter" % a.text(), prog.config)
+            if [c for c, pol in guards(s_) if "RUN" not in c.mac]:
+                ck.violation("R16b", "R16b/%s/conditional" % F.name, site(prog, s_), "omp_set_num_threads is conditional", prog.config)
+            sets.append(s_)
+        helpers = []
+        if depth < 2:
+            for c in F.body.calls():
+                G = prog.fn(prog.resolve(c.callee, F.file), required=False) if c.callee else None
+                if G is None or G is F or G.cfg is None or not any(True for _ in G.body.calls("omp_set_num_threads")):
+                    continue
+
+                def ok_in_callee(H, a, c=c, G=G):
+                    idx = H.param_index(a.d["name"])
+                    if idx is None or idx >= len(c.args):
+                        return False
+                    b = c.args[idx].strip(casts=True)
+                    return b.k == "DeclRefExpr" and b.d.get("dk") == "Parm" and parm_ok(F, b)
+                inner = check(G, ok_in_callee, depth + 1)
+                if inner and not G.succeeds_avoiding([G.cfg.position(x) for x in inner]):
+                    if [g for g, pol in guards(c) if "RUN" not in g.mac]:
+                        ck.violation("R16b", "R16b/%s/conditional" % F.name, site(prog, c), "%s (which sets the thread count) is called conditionally" % G.name, prog.config)
+                    helpers.append(c)
+                elif inner:
+                    raise AnalysisBroken("R16b: %s sets the thread count on some of its success paths only; not decided" % G.name)
+        allsets = sets + helpers
+        spos = [cfg.position(x) for x in allsets]
+        for c in F.body.calls():
+            if c in helpers:
+                continue
+            if opens(c.callee):
+                ck.inst("R16b", site(prog, c, c.callee), "%s: %s opens parallel regions; the thread count is set before it" % (F.name, c.callee), prog.config)
+                if allsets and cfg.reaches(None, cfg.position(c), avoid=spos):
+                    ck.violation("R16b", "R16b/%s/%s" % (F.name, c.callee), site(prog, c),
+                                 "%s (which opens a parallel region) can run before omp_set_num_threads" % c.callee, prog.config)
+        return allsets
+    sets = check(K, lambda F, a: True)
+    where = site(prog, sets[0] if sets else K, "omp_set_num_threads")
+    ck.inst("R16b", where, "kalign_run sets the OpenMP thread count at %d place(s)" % len(sets), prog.config)
+    if not sets:
+        ck.violation("R16b", "R16b/kalign_run/missing", where,
+                     "kalign_run never calls omp_set_num_threads: the thread count of an earlier call stays in force", prog.config)
+        return
 
 
 # --------------------------------------------------------------------------- R16d
